@@ -205,7 +205,7 @@ def dedupe(xs):
     return out
 
 
-def param_batches(fv, ks=(0, 1, 2, 3)):
+def param_batches(fv, ks=(0, 1, 2, 3), one_per_k=False):
     """parameter batches for an expression with free variables fv: list of {var: [values per row]}.
     k = 0 only for parameter-free expressions; rows carry DISTINCT values so mix-ups show."""
     fv = sorted(fv)
@@ -216,7 +216,7 @@ def param_batches(fv, ks=(0, 1, 2, 3)):
     for k in ks:
         if k == 0:
             continue
-        for rows in base[k]:
+        for rows in (base[k][:1] if one_per_k and k > 1 else base[k]):
             b = {}
             for j, v in enumerate(fv):
                 b[v] = rows if j == 0 else list(reversed(rows))   # second parameter in another order
